@@ -10,7 +10,7 @@ from hed.models.tabular_input import TabularInput
 from hed.models.column_mapper import ColumnMapper
 from hed.models.column_metadata import ColumnMetadata, ColumnType
 
-_HARDWIRE_KNOWN = True      # while developing: exclusions active without known_findings.json
+_HARDWIRE_KNOWN = True     # True while developing: exclusions active without known_findings.json
 
 _CLS = ",() "               # classes used to partition a reference's surroundings (+ "anything else")
 
@@ -156,7 +156,7 @@ def join_row(c0: str, c1: str, c2: str, ncol: int) -> bool:
     pre: len(c0) <= R.N(3) and len(c1) <= R.N(3) and len(c2) <= R.N(3)
     pre: ncol >= 2 or c1 == ""
     pre: ncol >= 3 or c2 == ""
-    pre: _ncol_cell(ncol)
+    pre: _ncol_cell(ncol, c0)
     post: _
     """
     cells = [c0, c1, c2][:ncol]
@@ -166,13 +166,23 @@ def join_row(c0: str, c1: str, c2: str, ncol: int) -> bool:
     return len(out) == 3 and out[0] == M.join_row(cells) and out[1] == ", ".join(["k"] * ncol) and out[2] == ""
 
 
-def _ncol_cell(ncol):
+def _ncol_cell(ncol, c0):
     t = R.env_int("VP_NCOL")
-    return t is None or ncol == t
+    if t is not None and ncol != t:
+        return False
+    t = R.env_int("VP_L0")
+    return t is None or len(c0) == t
+
+
+def _join_cells(n):
+    return [{"VP_NCOL": 1}, {"VP_NCOL": 2}] + [{"VP_NCOL": 3, "VP_L0": k} for k in range(n + 1)]
 
 
 # ================================================================== 5. splice of a curly-brace reference
-_NAMES = ["r", "HED", "a-b", "_", "x2", "2", "10", "0"]      # reference names (all match [a-z_\\-0-9]+)
+_NAMES = ["r", "HED", "a-b", "_", "x2", "0", "2", "10"]      # reference names (all match [a-z_\\-0-9]+)
+_NSYM = 6     # names explored symbolically.  "2" and "10" are kept for concrete witnesses only: un-escaped they
+#               become a quantifier on a named group, which CrossHair's regex model does not execute the way
+#               CPython does (it reported 'confirmed' for inputs that fail concretely), so no claim is made there
 
 
 def _surround(s):
@@ -195,6 +205,12 @@ def _kf_digit_ref(rsel, v):
     """the referenced column's name consists of digits only and its cell is n/a: the un-escaped name is read
     as a regular-expression quantifier"""
     return v == "n/a" and _NAMES[rsel].isdigit()
+
+
+def _kf_blank_before_first_ref(pre_, post_, v):
+    """the referenced cell is n/a, the reference is the first item of the annotation, blanks precede it and a
+    comma follows it: the blanks are taken for the separator and the comma survives"""
+    return v == "n/a" and pre_ != "" and M.trim(pre_) == "" and M.trim(post_)[:1] == ","
 
 
 def _vsel_ok(vsel, v):
@@ -225,11 +241,13 @@ def _splice_cells(shapes, vsels=(0, 1, 2), rsels=(0,), per_cell=2):
     for the n/a case (symbolic regular expression, the slow part) shapes with more than `per_cell` surrounding
     characters are split by the class of pre[0], then of post[0]"""
     cells = []
-    for vsel in vsels:
+    for vsel in vsels:              # vsel None: the cell holds all three kinds of referenced value
         for rsel in rsels:
             for lp, lq in shapes:
-                base = [{"VP_VSEL": vsel, "VP_RSEL": rsel, "VP_LP": lp, "VP_LQ": lq}]
-                extra = lp + lq - per_cell if vsel == 0 else lp + lq - per_cell - 1
+                base = [{"VP_RSEL": rsel, "VP_LP": lp, "VP_LQ": lq}]
+                if vsel is not None:
+                    base[0]["VP_VSEL"] = vsel
+                extra = lp + lq - per_cell if vsel != 2 else lp + lq - per_cell - 1
                 if extra > 0 and lp >= 1:
                     base = [dict(b, VP_P0=k) for b in base for k in range(len(_CLS) + 1)]
                     extra -= 1
@@ -245,13 +263,14 @@ def _shapes(each, total):
 
 def splice_ref(pre_: str, post_: str, vsel: int, v: str, rsel: int) -> bool:
     """
-    pre: 0 <= rsel < len(_NAMES) and 0 <= vsel <= 2
+    pre: 0 <= rsel < _NSYM and 0 <= vsel <= 2
     pre: len(pre_) <= R.N(2) and len(post_) <= R.N(2) and len(v) <= 3
     pre: _splice_cell(pre_, post_, vsel, rsel)
     pre: _surround(pre_) and _surround(post_)
     pre: _vsel_ok(vsel, v) and (vsel != 2 or (len(v) <= R.M(2) and _surround(v)))
     pre: not _known("C06-na-categorical-in-reference", _kf_empty_ref(pre_, "{" + _NAMES[rsel] + "}", post_, v))
     pre: not _known("C06-digit-column-reference", _kf_digit_ref(rsel, v))
+    pre: not _known("C06-blank-before-first-reference", _kf_blank_before_first_ref(pre_, post_, v))
     post: _
     """
     ref = "{" + _NAMES[rsel] + "}"
@@ -338,6 +357,7 @@ def row_ref_value(pre_: str, post_: str, xv: str) -> bool:
     pre: _surround(pre_) and _surround(post_)
     pre: len(xv) <= 3 and _surround(xv)
     pre: not _known("C06-empty-value-cell", _kf_empty_value_cell(xv))
+    pre: not _known("C06-blank-before-first-reference", _kf_blank_before_first_ref(pre_, post_, xv))
     post: _
     """
     return _row_check(pre_, post_, "Az", "a", "w", "Red", xv)
@@ -493,33 +513,34 @@ HARNESSES = [
         oracle="models/assemble_ref.py:category_cell", stubs=[_STUB_JSON],
         outside="sidecars whose category keys are themselves 'n/a' or empty (keys are the fixed 'a','b')"),
     R.H("join_row", ["hed.models.base_input.BaseInput.combine_dataframe"],
-        quick=R.tier(cells=R.int_cells("VP_NCOL", 1, 3), env={"VP_N": 3}, timeout=150,
+        quick=R.tier(cells=_join_cells(3), env={"VP_N": 3}, timeout=150,
                      bound="rows of 1..3 cells, every cell text with len <= 3; two further fixed rows"),
-        thorough=R.tier(cells=R.int_cells("VP_NCOL", 1, 3), env={"VP_N": 4}, timeout=900,
+        thorough=R.tier(cells=_join_cells(4), env={"VP_N": 4}, timeout=900,
                         bound="rows of 1..3 cells, every cell text with len <= 4; two further fixed rows"),
         what="combine_dataframe returns one text per row in row order: the cells that are neither empty nor n/a "
              "joined by ', '",
         oracle="models/assemble_ref.py:join_row", stubs=[_STUB_FRAME],
         outside="pandas' own apply(axis=1); non-str cells"),
     R.H("splice_ref", ["hed.models.df_util.replace_ref"],
-        quick=R.tier(cells=_splice_cells(_shapes(2, 3)) + _splice_cells([(0, 0), (1, 0), (0, 1)], (0,), (1, 2, 3, 4, 5, 6, 7)),
+        quick=R.tier(cells=_splice_cells(_shapes(2, 3)) + _splice_cells([(0, 0), (1, 0), (0, 1)], (None,), (1, 2, 3, 4, 5)),
                      env={"VP_N": 2, "VP_M": 1}, timeout=150,
                      bound="template pre+'{r}'+post, pre/post printable ASCII without braces, each len <= 2, together "
                            "<= 3; referenced value n/a, empty, or 1 printable character; further reference names "
-                           "HED, a-b, _, x2, 2, 10, 0 with n/a and at most one surrounding character"),
+                           "HED, a-b, _, x2, 0 with at most one surrounding character"),
         thorough=R.tier(cells=_splice_cells(_shapes(2, 4) + [(3, 0), (3, 1), (0, 3), (1, 3)])
-                        + _splice_cells(_shapes(1, 2), (0,), (1, 2, 3, 4, 5, 6, 7)),
+                        + _splice_cells(_shapes(1, 2), (None,), (1, 2, 3, 4, 5)),
                         env={"VP_N": 3, "VP_M": 2}, timeout=1100, path_timeout=60,
                         bound="pre/post printable ASCII without braces, lengths (<=2,<=2), (3,<=1), (<=1,3); value n/a, "
-                              "empty, or <= 2 printable characters; the other reference names with n/a and each "
+                              "empty, or <= 2 printable characters; the reference names HED, a-b, _, x2, 0 with each "
                               "surrounding <= 1"),
         what="after splicing, the reference is gone; a value that is neither n/a nor empty stands exactly in its "
              "place; for an n/a or empty value, whenever the template is a well-formed list with the reference as "
              "an item of its own, the result is delimiter-well-formed and parses to the template's tree with that "
              "item (and the parentheses enclosing only it) removed",
         oracle="models/assemble_ref.py:spliced_ok (independent tokenizer, list grammar, tree, item removal)",
-        stubs=["reference names are drawn from a fixed list of 8 (index enumerated by the solver / one per cell); "
-               "the name must be concrete because it becomes part of the regular expression"],
+        stubs=["reference names are drawn from a fixed list of 6 (one per cell); the name must be concrete because "
+               "it becomes part of the regular expression; all-digit names other than '0' are excluded because "
+               "CrossHair's regex model mis-executes the quantifier they turn into"],
         outside="templates with several references; non-ASCII or non-printable surroundings; other column names"),
     R.H("row_ref_categorical", _T_ROW,
         quick=R.tier(cells=_row_cells(_shapes(2, 2)), env={"VP_N": 2, "VP_M": 1, "VP_SUM": 2}, timeout=150,
@@ -542,7 +563,7 @@ HARNESSES = [
                      bound=_B_ROW + "; templates '({c}), Sq' and '({v}), Sq'; symbolic: cells of c and t (any text, len "
                            "<= 3), HED cell (printable, len <= 1), cell of v in {n/a, 7}, entry 'a' of c "
                            "(1 character)"),
-        thorough=R.tier(cells=_RC_CELLS, env={"VP_N": 3, "VP_M": 2}, timeout=1100, path_timeout=60,
-                        bound=_B_ROW + "; as quick with HED cell len <= 3 and entry <= 2 characters"),
+        thorough=R.tier(cells=_RC_CELLS, env={"VP_N": 2, "VP_M": 2}, timeout=1100, path_timeout=60,
+                        bound=_B_ROW + "; as quick with HED cell len <= 2 and entry <= 2 characters"),
         what=_W_ROW, oracle=_O_ROW, stubs=_S_ROW, outside=_X_ROW),
 ]
